@@ -73,6 +73,10 @@ func caseC19(c *Ctx) {
 		c19SharedDump(c)
 		return
 	}
+	if c.Mode == "sharedinputs" {
+		c19SharedInputs(c)
+		return
+	}
 	goroutines, histories := 8, 6
 	if c.Tier == "thorough" {
 		goroutines, histories = 32, 8
